@@ -1,5 +1,118 @@
-(* C08 - AUTO text written by depccg reads back to the same tree.  Property theorems only. *)
+(* C08 - AUTO text written by depccg reads back to the same tree.  Property theorems only.
+   Model: Auto.v (auto_of, last column of conll_of, denormalize, _fix, _AutoLineReader, read_auto); vocabulary: AutoSpec.v.
+   The tables (denormalize, punctuations, category split class, _FIX, the endswith suffixes) are regenerated from the
+   source on every run (GenTables.v, GenAuto.v); the facts about them that the proofs use are re-checked by computation.
+   [guess] - the grammar's label guess for (target, left, right) - is universally quantified: the theorems hold for any grammar.
+
+   Domain [wf_tree t]: every category is a well-formed value in the sense of C05 ([wf puncts]); every leaf token has a
+   'word' without blank (U+0020) and without backslash; its 'pos' (or auto_of's default "POS") has no blank.
+   Nothing else is assumed: words may be empty, may be or contain brackets, angle characters, quotes, any other code point
+   (e.g. words ending in ")[conj]", which the reader's category repair must leave alone). *)
 From Coq Require Import List NArith Bool.
 Import ListNotations.
 Require Import Cat CatFacts Tree GenTables GenAuto Auto AutoSpec AutoProofs.
 Open Scope N_scope.
+
+(* reading the printed line gives the canonical form of the tree: same shape, categories, head flags of binary nodes, pos;
+   words in their escaped spelling; labels as the reader sets them (character-level cursor model, fuel = line length) *)
+Theorem C08_read_print : forall guess t, wf_tree t -> read_printed guess (print_auto t) = Some (canon guess t).
+Proof. exact read_printed_print. Qed.
+
+(* the same with the reader's token list, which is the list of the tokens of the leaves *)
+Theorem C08_read_line : forall guess t p, wf_tree t -> print_auto t = Some p ->
+  read_line guess p = Some (canon guess t, tokens (canon guess t)).
+Proof. exact read_line_print. Qed.
+
+(* file level: an ID line, then the printed line followed by a newline (or any white space) *)
+Theorem C08_read_file : forall guess t p name pad,
+  wf_tree t -> print_auto t = Some p -> prefixb s_ID (strip name) = true -> forallb is_ws pad = true ->
+  read_auto guess [name; p ++ pad] = Some [(strip name, tokens (canon guess t), canon guess t)].
+Proof. exact read_file_print. Qed.
+
+(* a tree of the domain is printable (no KeyError) *)
+Theorem C08_printable : forall t, wf_tree t -> exists p, print_auto t = Some p.
+Proof. exact wf_printable. Qed.
+
+(* printing what was read reproduces the line exactly - for every printable tree, well-formed or not *)
+Theorem C08_reprint_any : forall guess t p, print_auto t = Some p -> print_auto (canon guess t) = Some p.
+Proof. exact reprint. Qed.
+Theorem C08_reprint : forall guess t, wf_tree t -> print_auto (canon guess t) = print_auto t.
+Proof. exact reprint_wf. Qed.
+
+(* the per-word fragments of the last CoNLL column, joined by blanks, are the AUTO line - for trees whose tokens all carry
+   'pos' (auto_of defaults to "POS", conll_of to "_"; without pos the two differ in exactly that field) *)
+Theorem C08_conll_fragments : forall t, all_pos t -> option_map join_sp (conll_frags t) = print_auto t.
+Proof. exact conll_fragments. Qed.
+
+(* the lemmas the round trip rests on *)
+Theorem C08_show_no_blank : forall c, wf puncts c -> has cSP (show c) = false.
+Proof. exact show_nosp. Qed.
+Theorem C08_fix_inert_on_printed : forall c, wf puncts c -> fixcat (show c) = show c.
+Proof. exact fix_show. Qed.
+Theorem C08_next_field : forall line a r, has cSP a = false -> next line (a ++ cSP :: r) = (a, r).
+Proof. exact next_field. Qed.
+Theorem C08_denormalize_idempotent : forall w, denormalize (denormalize w) = denormalize w.
+Proof. exact denormalize_idem. Qed.
+Theorem C08_denormalize_no_blank : forall w, has cSP w = false -> has cSP (denormalize w) = false.
+Proof. exact denormalize_nosp. Qed.
+
+(* canon keeps the number of words, the head word and the lexical categories *)
+Theorem C08_canon_keeps : forall guess t,
+  nleaves (canon guess t) = nleaves t /\ head_index (canon guess t) = head_index t /\
+  map fst (leaves (canon guess t)) = map fst (leaves t) /\ tcat (canon guess t) = tcat t.
+Proof. intros guess t. exact (conj (canon_nleaves guess t) (conj (canon_head_index guess t) (conj (canon_leaf_cats guess t) (tcat_canon guess t)))). Qed.
+
+(* the boolean domain tests used on generated data decide the predicates *)
+Theorem C08_wf_tree_decidable : forall t, wf_treeb t = true <-> wf_tree t.
+Proof. exact wf_treeb_ok. Qed.
+Theorem C08_all_pos_decidable : forall t, all_posb t = true <-> all_pos t.
+Proof. exact all_posb_ok. Qed.
+
+(* ---------- non-vacuity: a non-trivial tree meets the hypotheses, and the statements compute on it ---------- *)
+Definition ex_NP : cat := Atom [78;80] FNone.
+Definition ex_SNP : cat := Fun (Atom [83] (FUn [100;99;108])) [cBS] ex_NP.
+Definition ex_S : cat := Atom [83] (FUn [100;99;108]).
+(* S[dcl] <- (NP <- N "(" , head right) with S[dcl]\NP "a<b)[conj]" ; the left leaf under a unary node *)
+Definition ex_tree : tree :=
+  Bin ex_S [98;97] [60] false
+    (Un ex_NP [108;101;120] s_unsym (Leaf (Atom [78] FNone) [(k_word, [40]); (k_pos, [45;76;82;66;45])] s_lex s_lexsym))
+    (Leaf ex_SNP [(k_word, [97;60;98;41;91;99;111;110;106;93]); (k_lemma, [97])] s_lex s_lexsym).
+Definition ex_guess (c l r : cat) : text * text := ([98;97], [60]).
+Example ex_wf_tree : wf_tree ex_tree.
+Proof. apply wf_treeb_ok. vm_compute. reflexivity. Qed.
+Example ex_print : print_auto ex_tree =
+  Some [40;60;84;32;83;91;100;99;108;93;32;49;32;50;62;32;40;60;84;32;78;80;32;48;32;49;62;32;40;60;76;32;78;32;45;76;82;66;45;32;45;76;82;66;45;32;45;76;82;66;45;32;78;62;41;32;41;32;
+        40;60;76;32;83;91;100;99;108;93;92;78;80;32;80;79;83;32;80;79;83;32;97;45;76;65;66;45;98;41;91;99;111;110;106;93;32;83;91;100;99;108;93;92;78;80;62;41;32;41].
+  (* (<T S[dcl] 1 2> (<T NP 0 1> (<L N -LRB- -LRB- -LRB- N>) ) (<L S[dcl]\NP POS POS a-LAB-b)[conj] S[dcl]\NP>) ) *)
+Proof. vm_compute. reflexivity. Qed.
+Example ex_read : read_printed ex_guess (print_auto ex_tree) = Some (canon ex_guess ex_tree).
+Proof. vm_compute. reflexivity. Qed.
+Example ex_canon : canon ex_guess ex_tree =
+  Bin ex_S [98;97] [60] false
+    (Un ex_NP s_lex s_unsym (Leaf (Atom [78] FNone) (reader_token [45;76;82;66;45] [45;76;82;66;45] [45;76;82;66;45]) s_lex s_lexsym))
+    (Leaf ex_SNP (reader_token [97;45;76;65;66;45;98;41;91;99;111;110;106;93] s_POS s_POS) s_lex s_lexsym).
+Proof. vm_compute. reflexivity. Qed.
+(* the second token has no 'pos': the conll fragments then carry "_" where the auto line carries "POS" *)
+Example ex_conll_differs_without_pos : all_posb ex_tree = false /\ option_map join_sp (conll_frags ex_tree) <> print_auto ex_tree.
+Proof. split; [reflexivity | vm_compute; discriminate]. Qed.
+Definition ex_tree_pos : tree :=
+  Bin ex_S [98;97] [60] true
+    (Leaf ex_NP [(k_word, [72;101]); (k_pos, [80;82;80])] s_lex s_lexsym)
+    (Un ex_SNP [108;101;120] s_unsym (Leaf ex_SNP [(k_word, [62]); (k_pos, [86;66;90])] s_lex s_lexsym)).
+Example ex_all_pos : all_pos ex_tree_pos.
+Proof. apply all_posb_ok. vm_compute. reflexivity. Qed.
+Example ex_conll : conll_frags ex_tree_pos =
+  Some [[40;60;84;32;83;91;100;99;108;93;32;48;32;50;62;32;40;60;76;32;78;80;32;80;82;80;32;80;82;80;32;72;101;32;78;80;62;41];
+        [40;60;84;32;83;91;100;99;108;93;92;78;80;32;48;32;49;62;32;40;60;76;32;83;91;100;99;108;93;92;78;80;32;86;66;90;32;86;66;90;32;45;82;65;66;45;32;83;91;100;99;108;93;92;78;80;62;41;32;41;32;41]].
+  (* "(<T S[dcl] 0 2> (<L NP PRP PRP He NP>)" ; "(<T S[dcl]\NP 0 1> (<L S[dcl]\NP VBZ VBZ -RAB- S[dcl]\NP>) ) )" *)
+Proof. vm_compute. reflexivity. Qed.
+(* outside the domain the statement is not claimed: a word with a blank, a word with a backslash *)
+Example ex_blank_word_not_read :
+  read_printed ex_guess (print_auto (Leaf ex_NP [(k_word, [97;32;98])] s_lex s_lexsym)) <> Some (canon ex_guess (Leaf ex_NP [(k_word, [97;32;98])] s_lex s_lexsym)).
+Proof. vm_compute. discriminate. Qed.
+Example ex_backslash_word_changed :
+  read_printed ex_guess (print_auto (Leaf ex_NP [(k_word, [97;92;98])] s_lex s_lexsym)) <> Some (canon ex_guess (Leaf ex_NP [(k_word, [97;92;98])] s_lex s_lexsym)).
+Proof. vm_compute. discriminate. Qed.
+(* the category repair does fire on the CCGbank quirks it was written for, and never on a printed category *)
+Example ex_fix_fires : fixcat [40;83;92;78;80;41;92;40;83;92;78;80;41;91;99;111;110;106;93] = [40;83;92;78;80;41;92;40;83;92;78;80;41].
+Proof. vm_compute. reflexivity. Qed.
